@@ -48,6 +48,14 @@ def run(tier, seed, scale=1.0):
     res.merge(go("userwins", n_uw))
     res.merge(go("roundtrip", n_sub, opts={"ll": 1}, chunk=max(32, n_sub // 32)))
     res.merge(go("userwins", n_sub // 2, opts={"ll": 1}, chunk=max(32, n_sub // 32)))
+    # ares_dup() / ares_get_servers_csv() of a channel whose servers have failure counts (simulator, failover profile:
+    # E1): the configured order is what counts.  Only the cfg16:* keys of that profile are this check's.
+    n_fo = int((6000 if quick else 300000) * scale)
+    r5 = vdriver.explore(common.spec("simnet", "failover", seed), n_fo, chunk=max(100, n_fo // 64), chunk_timeout=900)
+    r5.violations = [v for v in r5.violations if v["key"].startswith("cfg16:")]
+    r5.counters = {"sim_failover_" + k: v for k, v in r5.counters.items() if k in ("cases", "rule_dup_server_order", "note.rule_dup_server_order")}
+    r5.fps = set()
+    res.merge(r5)
     return common.finish(
         PROP, tier, seed, "exploration", res, own, RULE, t0, min_conclusive=1000 * scale,
         assumptions=[
